@@ -560,8 +560,13 @@ def rule_saved(repo, tier):
     return res
 
 
+def rule_mat4(repo, tier):
+    from .c03 import rule_mat
+    return rule_mat(repo, 'C04.MAT', strict=True)
+
+
 def _rules_core(repo, tier):
-    return [rule_vt(repo, tier), rule_sb(repo, tier), rule_lt(repo, tier), rule_pure(repo, tier), rule_dep(repo, tier), rule_saved(repo, tier)]
+    return [rule_vt(repo, tier), rule_sb(repo, tier), rule_lt(repo, tier), rule_pure(repo, tier), rule_dep(repo, tier), rule_saved(repo, tier), rule_mat4(repo, tier)]
 
 
 @guarded
